@@ -4,6 +4,10 @@ PE lines:   <op> <kind B|O> <data xhex> <pos0> <start none|n> <maxrange> <expect
             op ∈ mz arch stamps mmz mpe ppa ;  kind B = io.BytesIO, O = a real temporary file opened "rb";
             <expect> is the ground truth of the *builder* (tokens joined by '_', '-' = no claim); the Lean driver ignores it,
             the oracle compares the real library's answer with it.
+Histories:  hist l<setting indices> <op|op|…>   ops: r (read .version) m (read max_setting_enum) s<v> c<v> (assign pe_export_stamp /
+            pe_compile_stamp, v int or none) a<x86|x64|none> (assign architecture);   verhist <l..|l..|…>;
+            pehist <kind> <data> <maxrange> <op:start:seek:expect|…>   (seek '-' = keep the position left by the previous call)
+            answers of the steps are joined by ' | '.
 Version:    ver l<code points> | tbl pe|enum <key> | cfg <stamp|none> l<setting indices> | fmt maj min patch y m d
 """
 from __future__ import annotations
@@ -34,6 +38,10 @@ STREAMS = {
     "tbl": {"relevant": True, "desc": "BeaconVersion.from_pe_export_stamp / from_max_setting_enum"},
     "cfg": {"relevant": True, "desc": "BeaconConfig.version precedence (export stamp, then max setting enum)"},
     "fmt": {"relevant": True, "desc": "documented shape: format → BeaconVersion → same fields"},
+    "hist": {"relevant": True, "desc": "history on ONE BeaconConfig: reads of .version / max_setting_enum interleaved with assignments of "
+             "pe_export_stamp / pe_compile_stamp / architecture; every read must reflect the CURRENT attributes"},
+    "verhist": {"relevant": True, "desc": "BeaconVersion constructed repeatedly with different (prefix-sharing) strings"},
+    "pehist": {"relevant": True, "desc": "several pe.find_* calls on the SAME file object in different orders / from different positions"},
     "cls": {"relevant": False, "desc": "character classes of the str patterns: re \\s, \\d and int() over all code points"},
     "mono": {"relevant": True, "desc": "table monotonicity on every key pair through the real BeaconVersion constructors"},
 }
@@ -49,7 +57,7 @@ ASSUMPTIONS = [
     "digit groups shorter than CPython's int-conversion limit (4300 digits); C locale month abbreviations",
     "file objects are io.BytesIO or regular files opened 'rb'; start_offset is None or a non-negative int, maxrange a non-negative int",
 ]
-RULE = ("grid of synthetic images (arch × e_lfanew × prepend × export dir × section count × append × magic × truncation × file kind) "
+RULE = ("histories on one BeaconConfig / one file object / repeated BeaconVersion constructions + grid of synthetic images (arch × e_lfanew × prepend × export dir × section count × append × magic × truncation × file kind) "
         "+ mutated/random images + all table keys ±1 + shaped/malformed version strings; distinct = hash of (stream, line); "
         "non-trivial = an MZ header was located / the version regex matched / a table key hit")
 
@@ -446,6 +454,88 @@ def gen(tier, rng, shard, nshards):
         en = [rng.choice(allen + [rng.randrange(1, 120)]) for _ in range(rng.randrange(0, 6))]
         yield "cfg", f"cfg {st} {C.ints(en)}"
 
+    # ---- histories on ONE BeaconConfig object (a memoised .version, a stale cache after assigning pe_export_stamp, …)
+    stamp_pool = (["none", "0", "-1", "1"] + [str(x) for x in allpe] + [str(x + 1) for x in allpe[:8]] + [str(x - 1) for x in allpe[:8]])
+
+    def rstamp():
+        return rng.choice(stamp_pool) if rng.random() < 0.9 else str(rng.getrandbits(32))
+
+    def rother():
+        return rng.choice(["c" + rng.choice(["none", "0", str(rng.getrandbits(32)), str(rng.choice(allpe))]),
+                           "a" + rng.choice(["x86", "x64", "none"])])
+
+    # systematic: read, assign, read  (all ordered pairs of a small stamp set × a few settings)
+    small = ["none", "0", str(allpe[0]), str(allpe[-1]), str(allpe[5] + 1)]
+    for en in ([20], [78, 20], [55, 1, 3], [], [200]):
+        for a in small:
+            for b in small:
+                if not mine():
+                    continue
+                yield "hist", f"hist {C.ints(en)} s{a}|r|s{b}|r"
+                yield "hist", f"hist {C.ints(en)} r|s{b}|r|m|s{a}|r"
+    for _ in range((6000 if thorough else 900) // nshards):
+        en = [rng.choice(allen + [rng.randrange(1, 120)]) for _ in range(rng.choice([0, 1, 1, 2, 3, 5]))]
+        n = rng.randrange(2, 9)
+        ops = []
+        for _ in range(n):
+            r = rng.random()
+            ops.append("r" if r < 0.4 else ("s" + rstamp()) if r < 0.7 else "m" if r < 0.8 else rother())
+        if "r" not in ops:
+            ops[rng.randrange(len(ops))] = "r"
+        if rng.random() < 0.5:
+            ops += ["s" + rstamp(), "r"]
+        yield "hist", f"hist {C.ints(en)} {'|'.join(ops[:10])}"
+
+    # ---- BeaconVersion constructed repeatedly with prefix-sharing strings
+    alltexts = sorted(set(version.PE_EXPORT_STAMP_TO_VERSION.values()) | set(version.MAX_ENUM_TO_VERSION.values()))
+    for _ in range((4000 if thorough else 600) // nshards):
+        base = rng.choice(alltexts)
+        fam = [base]
+        for _ in range(rng.randrange(1, 6)):
+            r = rng.random()
+            if r < 0.25:
+                fam.append(rng.choice(alltexts))
+            elif r < 0.45:   # same prefix up to the day / year
+                fam.append(base[:-9] + f"{rng.randrange(1, 29):02d}, {rng.choice([2016, 2019, 2021, 2024])})")
+            elif r < 0.6:    # same prefix, other minor / patch
+                head, _, tail = base.partition(" (")
+                fam.append(head + rng.choice([".1", ".0", "0", ""]) + " (" + tail)
+            elif r < 0.75:
+                fam.append(base[:rng.randrange(0, len(base))])
+            elif r < 0.85:
+                fam.append("Unknown")
+            else:
+                fam.append(gen_version(rng))
+        rng.shuffle(fam)
+        yield "verhist", "verhist " + "|".join(txt(t) for t in fam)
+
+    # ---- several pe.find_* calls on the SAME file object, different orders and starting positions
+    for _ in range((1500 if thorough else 220) // nshards):
+        arch = rng.choice(["x86", "x64"])
+        img = Img(rng, arch=arch, lfanew=rng.choice([64, 64, 128, 200, 400, 0, 1024]), nsec=rng.randrange(0, 4),
+                  export=rng.choice(["in", "in", "out", "none"]), append=rng.choice([b"", b"TAIL\x00\x00", C.rbytes(rng, 30)]),
+                  magic_mz=rng.choice([None, b"MZRE", b"zz"]), overlap=rng.random() < 0.3)
+        body = img.build(rng)
+        prepend = safe_prepend(rng, rng.choice([0, 0, 1, 7, 64, 300]))
+        data = prepend + body
+        if rng.random() < 0.15:
+            data = data[:rng.randrange(0, len(data) + 1)]
+            img = None
+        P = len(prepend)
+        items = []
+        ops = [rng.choice(PE_OPS) for _ in range(rng.randrange(2, 7))]
+        if rng.random() < 0.4:
+            ops = list(PE_OPS)
+            rng.shuffle(ops)
+        for op in ops:
+            start = rng.choice([0, 0, 0, None, P, max(P - 1, 0), P + 1, 3])
+            sk = rng.choice(["-", "-", "0", str(P), str(rng.randrange(0, len(data) + 5)), str(len(data))])
+            exp = "-"
+            if img is not None and (start is not None or sk != "-"):
+                exp = expectations(img, prepend, data, start, int(sk) if sk != "-" else 0, 1024)[op]
+            items.append(f"{op}:{'none' if start is None else start}:{sk}:{exp}")
+        yield "pehist", f"pehist {rng.choice('BBO')} {C.hx(data)} 1024 {'|'.join(items)}"
+
     # ---- character classes: every code point (thorough) / the BMP part that holds all white space + sampled blocks (quick)
     step = 4096
     blocks = list(range(0, 0x110000, step))
@@ -614,6 +704,39 @@ def _ver(bv) -> str:
     return f"ok {C.ints(bv.tuple)} {d.year} {d.month} {d.day} {txt(bv.version_only)}"
 
 
+def _excname(e):
+    for cls in (EOFError, IndexError, KeyError, OverflowError, ValueError, OSError, AttributeError, TypeError):
+        if isinstance(e, cls):
+            return cls.__name__
+    return type(e).__name__
+
+
+def _settings_block(enums):
+    return b"".join(struct.pack(">HHHI", e, 2, 4, 0x01020304) for e in enums) + b"\x00\x00"
+
+
+def _pe_call(fh, op, start, maxrange):
+    if op == "mz":
+        r = pe.find_mz_offset(fh, start_offset=start, maxrange=maxrange)
+        return f"{_oi(r)} {fh.tell()}"
+    if op == "arch":
+        r = pe.find_architecture(fh, start_offset=start, maxrange=maxrange)
+        return f"{'none' if r is None else r} {fh.tell()}"
+    if op == "stamps":
+        c, x = pe.find_compile_stamps(fh, start_offset=start, maxrange=maxrange)
+        return f"ok {_oi(c)} {_oi(x)} {fh.tell()}"
+    if op == "mmz":
+        r = pe.find_magic_mz(fh, start_offset=start, maxrange=maxrange)
+        return f"{_ob(r)} {fh.tell()}"
+    if op == "mpe":
+        r = pe.find_magic_pe(fh, start_offset=start, maxrange=maxrange)
+        return f"ok {_ob(r)} {fh.tell()}"
+    if op == "ppa":
+        p, a = pe.find_stage_prepend_append(fh, start_offset=start, maxrange=maxrange)
+        return f"ok {_ob(p)} {_ob(a)} {fh.tell()}"
+    raise RuntimeError("unknown pe op " + op)
+
+
 def impl(stream, line):
     w = line.split(" ")
     if stream in PE_OPS:
@@ -623,26 +746,58 @@ def impl(stream, line):
         maxrange = int(w[5])
         fh = _open(w[1], data, pos0)
         try:
-            if stream == "mz":
-                r = pe.find_mz_offset(fh, start_offset=start, maxrange=maxrange)
-                return f"{_oi(r)} {fh.tell()}"
-            if stream == "arch":
-                r = pe.find_architecture(fh, start_offset=start, maxrange=maxrange)
-                return f"{'none' if r is None else r} {fh.tell()}"
-            if stream == "stamps":
-                c, x = pe.find_compile_stamps(fh, start_offset=start, maxrange=maxrange)
-                return f"ok {_oi(c)} {_oi(x)} {fh.tell()}"
-            if stream == "mmz":
-                r = pe.find_magic_mz(fh, start_offset=start, maxrange=maxrange)
-                return f"{_ob(r)} {fh.tell()}"
-            if stream == "mpe":
-                r = pe.find_magic_pe(fh, start_offset=start, maxrange=maxrange)
-                return f"ok {_ob(r)} {fh.tell()}"
-            if stream == "ppa":
-                p, a = pe.find_stage_prepend_append(fh, start_offset=start, maxrange=maxrange)
-                return f"ok {_ob(p)} {_ob(a)} {fh.tell()}"
+            return _pe_call(fh, stream, start, maxrange)
         finally:
             fh.close()
+    if stream == "pehist":
+        fh = _open(w[1], C.unhx(w[2]), 0)
+        maxrange = int(w[3])
+        outs = []
+        try:
+            for item in w[4].split("|"):
+                op, start, sk, _exp = item.split(":")
+                if sk != "-":
+                    fh.seek(int(sk))
+                try:
+                    outs.append(_pe_call(fh, op, None if start == "none" else int(start), maxrange))
+                except Exception as e:  # noqa: BLE001  (per-step rendering, same names as check.canon_exc for the builtins)
+                    outs.append("exc " + _excname(e))
+        finally:
+            fh.close()
+        return " | ".join(outs)
+    if stream == "hist":
+        enums = C.unints(w[1])
+        cfg = BeaconConfig(_settings_block(enums))
+        outs = []
+        for op in w[2].split("|"):
+            if op == "r":
+                try:
+                    v = cfg.version
+                    outs.append(f"{txt(str(v))} {_ver(v)}")
+                except Exception as e:  # noqa: BLE001
+                    outs.append("exc " + _excname(e))
+            elif op == "m":
+                try:
+                    outs.append(f"ok {int(cfg.max_setting_enum)}")
+                except Exception as e:  # noqa: BLE001
+                    outs.append("exc " + _excname(e))
+            elif op[0] == "s":
+                cfg.pe_export_stamp = None if op[1:] == "none" else int(op[1:])
+            elif op[0] == "c":
+                cfg.pe_compile_stamp = None if op[1:] == "none" else int(op[1:])
+            elif op[0] == "a":
+                cfg.architecture = None if op[1:] == "none" else op[1:]
+            else:
+                raise RuntimeError("bad history op " + op)
+        return " | ".join(outs)
+    if stream == "verhist":
+        outs = []
+        for t in w[1].split("|"):
+            try:
+                outs.append(_ver(version.BeaconVersion(untxt(t))))
+            except Exception as e:  # noqa: BLE001
+                outs.append("exc " + _excname(e))
+        return " | ".join(outs)
     if stream == "ver":
         return _ver(version.BeaconVersion(untxt(w[1])))
     if stream == "tbl":
@@ -673,8 +828,7 @@ def impl(stream, line):
         return C.tf(a.tuple <= b.tuple and a.date <= b.date)
     if stream == "cfg":
         enums = C.unints(w[2])
-        block = b"".join(struct.pack(">HHHI", e, 2, 4, 0x01020304) for e in enums) + b"\x00\x00"
-        cfg = BeaconConfig(block)
+        cfg = BeaconConfig(_settings_block(enums))
         cfg.pe_export_stamp = None if w[1] == "none" else int(w[1])
         return "ok " + txt(str(cfg.version))
     if stream == "fmt":
@@ -705,6 +859,12 @@ def nontrivial(stream, line, out):
         return out != "ok " + txt("Unknown")
     if stream == "cls":
         return any(ch != "-" for ch in out)
+    if stream == "hist":
+        return " ok l" in out
+    if stream == "verhist":
+        return "ok l" in out
+    if stream == "pehist":
+        return any(not (p.startswith("none") or p.startswith("ok none") or p.startswith("exc")) for p in out.split(" | "))
     return True
 
 
@@ -737,6 +897,33 @@ def oracle(stream, line, out):
         return out.endswith(" ok none")
     if stream == "mono":
         return out == "T"
+    if stream == "hist":
+        return _hist_oracle(w, out)
+    if stream == "verhist":
+        outs = out.split(" | ")
+        texts = [untxt(t) for t in w[1].split("|")]
+        if len(outs) != len(texts):
+            return False
+        for t, o in zip(texts, outs):
+            if t == "Unknown" and o != "ok none":
+                return False
+            if _documented(t) and not _shape_ok(t, o):
+                return False
+        return True
+    if stream == "pehist":
+        items = w[4].split("|")
+        outs = out.split(" | ")
+        if len(outs) != len(items):
+            return False
+        claimed = False
+        for item, o in zip(items, outs):
+            exp = item.split(":")[3]
+            if exp == "-":
+                continue
+            claimed = True
+            if o.startswith("exc ") or "_".join(o.split(" ")[:-1]) != exp:
+                return False
+        return True if claimed else None
     if stream == "cfg":
         st = None if w[1] == "none" else int(w[1])
         enums = C.unints(w[2])
@@ -759,6 +946,62 @@ def oracle(stream, line, out):
         text = untxt(w[1])
         return _shape_ok(text, out) if _documented(text) else None
     return None
+
+
+def _expected_ver(text: str):
+    if text == "Unknown":
+        return "ok none"
+    if not _documented(text):
+        return None
+    pre = "Cobalt Strike "
+    ver, _, date = text[len(pre):-1].partition(" (")
+    tup = [int(p) for p in ver.split(".")]
+    y, m, d = int(date[8:]), MONTHS.index(date[:3]) + 1, int(date[4:6])
+    return f"ok {C.ints(tup)} {y} {m} {d} {txt('.'.join(str(x) for x in tup))}"
+
+
+def _hist_oracle(w, out):
+    """every read must equal the stateless value for the attributes the object has AT THAT MOMENT:
+    (a) computed from the two dictionaries directly, (b) what a fresh object with the same attributes reports"""
+    enums = C.unints(w[1])
+    outs = out.split(" | ") if out else []
+    stamp = compile_ = arch = None
+    k = 0
+    for op in w[2].split("|"):
+        if op in ("r", "m"):
+            if k >= len(outs):
+                return False
+            got = outs[k]
+            k += 1
+            if op == "m":
+                want = f"ok {max(enums)}" if enums else "exc ValueError"
+                if got != want:
+                    return False
+                continue
+            if stamp:
+                text = version.PE_EXPORT_STAMP_TO_VERSION.get(stamp, "Unknown")
+            elif enums:
+                text = version.MAX_ENUM_TO_VERSION.get(max(enums), "Unknown")
+            else:
+                if got != "exc ValueError":
+                    return False
+                continue
+            ev = _expected_ver(text)
+            if ev is not None and got != f"{txt(text)} {ev}":
+                return False
+            if not got.startswith(txt(text) + " "):
+                return False
+            fresh = BeaconConfig(_settings_block(enums))
+            fresh.pe_export_stamp, fresh.pe_compile_stamp, fresh.architecture = stamp, compile_, arch
+            if txt(str(fresh.version)) != got.split(" ")[0]:
+                return False
+        elif op[0] == "s":
+            stamp = None if op[1:] == "none" else int(op[1:])
+        elif op[0] == "c":
+            compile_ = None if op[1:] == "none" else int(op[1:])
+        elif op[0] == "a":
+            arch = None if op[1:] == "none" else op[1:]
+    return k == len(outs)
 
 
 def _documented(text: str) -> bool:
@@ -790,6 +1033,20 @@ def _shape_ok(text: str, ver_out: str) -> bool:
 
 
 def shrink(stream, line):
+    if stream in ("hist", "verhist"):
+        w = line.split(" ")
+        steps = w[-1].split("|")
+        for i in range(len(steps)):
+            if len(steps) > 1:
+                yield " ".join(w[:-1] + ["|".join(steps[:i] + steps[i + 1:])])
+        return
+    if stream == "pehist":
+        w = line.split(" ")
+        steps = w[-1].split("|")
+        for i in range(len(steps)):
+            if len(steps) > 1:
+                yield " ".join(w[:-1] + ["|".join(steps[:i] + steps[i + 1:])])
+        return
     if stream in ("mono", "tbl"):
         return  # the keys are the witness; shrinking an integer key leaves the table
     if stream in PE_OPS:
